@@ -5,7 +5,7 @@
    with the C01 models of pycaption's own readers. *)
 From Coq Require Import List ZArith QArith Bool.
 From PV Require Import lib.Sx lib.Str lib.Result.
-From PV Require Import model.Chain spec.SpecChain proofs.ChainFacts.
+From PV Require Import model.TimeRead model.Chain spec.SpecChain proofs.ChainFacts.
 Import ListNotations.
 Open Scope Z_scope.
 
@@ -73,6 +73,16 @@ Theorem C08_chain_model_ok : forall chain cs, chain_dom chain cs = true ->
 Proof. exact run_model_ok. Qed.
 Print Assumptions C08_chain_model_ok.
 
+(* ---- the domain restriction is necessary: cues shorter than the resolution (known findings) ---- *)
+Theorem C08_short_cues_srt_merge_refuted :
+  exists chain cs, sorted_from 1 0 82800000000 cs = true /\ run_model chain cs <> Ok (expected chain cs).
+Proof. exact short_cues_srt_merge_refuted. Qed.
+Print Assumptions C08_short_cues_srt_merge_refuted.
+Theorem C08_short_cue_sami_end_refuted :
+  exists cs, sorted_from 1 0 82800000000 cs = true /\ hop FSami cs <> Ok (pi FSami cs).
+Proof. exact short_cue_sami_end_refuted. Qed.
+Print Assumptions C08_short_cue_sami_end_refuted.
+
 (* ---- non-vacuity --------------------------------------------------------------------------- *)
 Example C08_ex_chain :
   run_model [FDfxp; FMdvd; FSami; FSrt] [(1234567, 5004999); (8039999, 8120001)]
@@ -81,4 +91,8 @@ Example C08_ex_chain :
 Proof. vm_compute. split; reflexivity. Qed.
 Example C08_ex_mdvd_no_drift :
   run_model [FMdvd; FMdvd; FMdvd] [(8040000, 8120000)] = Ok [(8040000, 8120000)].
+Proof. vm_compute. reflexivity. Qed.
+(* what the MicroDVD writer prints for a cue inside frame 0 is refused by the reader model *)
+Example C08_ex_mdvd_frame0 :
+  TimeRead.mdvd_read (Str.lit "{0}{0}first") = Err ETiming.
 Proof. vm_compute. reflexivity. Qed.
